@@ -7,7 +7,9 @@ pub struct RId { _p: u8 }
 ///   Write(fmt)  - one `write!(writer, fmt, ..)` accepted by the sink (the formatted bytes are abstracted to the format string)
 ///   Child(id)   - one complete, successful `render_to` of the child node `id` (whatever it wrote)
 ///   Partial(id) - a child `render_to` that returned Err after writing a (possibly empty) prefix of its output
-pub enum Ev { Write(Seq<char>), Child(RId), Partial(RId) }
+///   Raw(n)      - a direct `io::Write::write` call that accepted n bytes of what it was offered (possibly fewer than all)
+///   RawAll      - a direct `write_all` call that was accepted completely
+pub enum Ev { Write(Seq<char>), Child(RId), Partial(RId), Raw(nat), RawAll(Seq<u8>) }
 
 /// Ghost model of `&mut dyn io::Write`: `log` = events accepted so far, `failed` = a write has failed.
 pub struct Sink { pub log: Ghost<Seq<Ev>>, pub failed: Ghost<bool> }
@@ -22,6 +24,28 @@ pub fn sink_write(w: &mut Sink, fmt: &'static str) -> (r: core::result::Result<(
         r is Err ==> final(w).failed@ && final(w).log@ == old(w).log@,
 { unimplemented!() }
 
+/// the io::Write methods themselves, for code that bypasses `write!`
+impl Sink {
+    #[verifier::external_body]
+    pub fn write(&mut self, buf: &[u8]) -> (r: core::result::Result<usize, IoError>)
+        requires !old(self).failed@,                                                         // [C10:no_write_after_failure]
+        ensures
+            r matches Ok(n) ==> n <= buf@.len() && !final(self).failed@ && final(self).log@ == old(self).log@.push(Ev::Raw(n as nat)),
+            r is Err ==> final(self).failed@ && final(self).log@ == old(self).log@,
+    { unimplemented!() }
+    #[verifier::external_body]
+    pub fn write_all(&mut self, buf: &[u8]) -> (r: core::result::Result<(), IoError>)
+        requires !old(self).failed@,                                                         // [C10:no_write_after_failure]
+        ensures
+            r is Ok ==> !final(self).failed@ && final(self).log@ == old(self).log@.push(Ev::RawAll(buf@)),
+            r is Err ==> final(self).failed@,
+    { unimplemented!() }
+    #[verifier::external_body]
+    pub fn flush(&mut self) -> (r: core::result::Result<(), IoError>)
+        ensures r is Ok ==> final(self).failed@ == old(self).failed@, final(self).log@ == old(self).log@,
+                r is Err ==> final(self).failed@,
+    { unimplemented!() }
+}
 pub trait ResultLiquidReplaceExt<T> {
     fn replace(self, msg: &'static str) -> (r: Result<T>);
 }
